@@ -286,7 +286,7 @@ CLAIMED['C19'] = dict(
          'ordering of up to 4 axes; gate outcome + whether a new file exists. Oracle: canonical layout, element-by-value coordinate check, parameters / '
          'extra datasets / root attributes verbatim, no file produced or removed by a rejected call.',
     design='5/C19',
-    note='Partial: binning (PIL resize) and normalisation are judged by the oracle only; PIL / numpy readers are trusted. The body of '
+    note='normalize=True is inside the model (Usid/TranslateNorm: every written value is the exact rational (pixel - min)/(max - min) at the place the plain image stores that pixel -- C19_normalized_pixel; it lies in [0,1], 0 / 1 are attained, order kept) and tied by correspondence: the written float32 / float64 numbers as exact binary fractions within 2^-20 of the rational. Partial: binning (PIL resize) is judged by the oracle only; PIL / numpy readers are trusted. The body of '
          'ArrayTranslator.translate after the gate is write_main_dataset (C02). A constant image normalises to 0/0 = NaN (outside the property).',
     technique='Coq proof (transpose/flatten lemma, N-D transpose + C-order offset theorem, composition with C08) + vm_compute correspondence on generated images and labelled datasets')
 
